@@ -355,7 +355,8 @@ pub fn c10_jobs(tier: Tier, seed: u64) -> Vec<Job> {
     for g in groups.iter_mut() {
         g.reverse();
     }
-    let mut out = vec![];
+    // the Vec backend's connected components (the gluing step of this property when run on the Vec backend)
+    let mut out = super::c07::conformance_jobs(tier, &[3, 5]);
     loop {
         let mut any = false;
         for g in groups.iter_mut() {
